@@ -21,7 +21,23 @@ import (
 	"strings"
 )
 
-func init() { Register(Area{Name: "SafeKVCode", Gen: genSafeKVCode}) }
+// one area per method (Gen/SafeKVCode<Method>.v, each with its own validated default): a method that leaves the translated
+// fragment degrades alone; the area SafeKVCode itself only re-exports them
+func init() {
+	Register(Area{Name: "SafeKVCode", Gen: func(string) (string, error) {
+		var sb strings.Builder
+		sb.WriteString("(* the regenerated method bodies of mapz.SafeKV, one file per method (see gen/safekv_code.go) *)\nFrom V Require Export")
+		for _, m := range skcMethods {
+			sb.WriteString(" Gen.SafeKVCode" + m.name)
+		}
+		sb.WriteString(".\n")
+		return sb.String(), nil
+	}})
+	for i := range skcMethods {
+		i := i
+		Register(Area{Name: "SafeKVCode" + skcMethods[i].name, Gen: func(repo string) (string, error) { return genSafeKVCode(repo, i) }})
+	}
+}
 
 // the methods the hand model's `call` type knows without callbacks, with the signature the theorem is stated for
 var skcMethods = []struct {
@@ -29,16 +45,20 @@ var skcMethods = []struct {
 	nargs    int
 	variadic bool
 	nres     int
+	cb       bool // has a function-typed parameter (for All: the parameter of the returned closure)
 }{
-	{"Clear", 0, false, 0}, {"Contains", 1, false, 1}, {"Delete", 0, true, 0}, {"Get", 1, false, 2}, {"Has", 1, false, 1},
-	{"Len", 0, false, 1}, {"Set", 2, false, 0}, {"SetNx", 2, false, 1}, {"SetX", 2, false, 1},
-	{"Keys", 0, false, 1}, {"Values", 0, false, 1},
+	{"Clear", 0, false, 0, false}, {"Contains", 1, false, 1, false}, {"Delete", 0, true, 0, false}, {"Get", 1, false, 2, false}, {"Has", 1, false, 1, false},
+	{"Len", 0, false, 1, false}, {"Set", 2, false, 0, false}, {"SetNx", 2, false, 1, false}, {"SetX", 2, false, 1, false},
+	{"Keys", 0, false, 1, false}, {"Values", 0, false, 1, false},
+	{"GetWithLock", 1, false, 0, true}, {"Map", 0, false, 0, true}, {"Range", 0, false, 0, true}, {"All", 0, false, 1, true},
 }
 
 type skc struct {
 	recv, entries, mu string
 	args              map[string]int // non-variadic parameter -> position
 	vararg            string         // name of the variadic parameter ("" if none)
+	fn                string         // name of the function-typed parameter ("" if none)
+	loops             int            // loop nesting depth
 	scopes            []map[string]int
 	nvars             int
 	slices            map[int]bool // locals that hold a slice (own name space in the target language)
@@ -123,6 +143,9 @@ func (c *skc) isBuiltin(e ast.Expr, name string) bool {
 	if _, sh := c.args[name]; sh {
 		return false
 	}
+	if name == c.fn {
+		return true // the function-typed parameter itself (not shadowed: checked above)
+	}
 	return name != c.vararg && name != c.recv
 }
 
@@ -156,6 +179,26 @@ func (c *skc) exp(e ast.Expr) string {
 		c.fail("expression %T not understood", e)
 	}
 	return "EZero"
+}
+
+// cbCall recognises fn(args...) on the function-typed parameter; returns the statement with result target xres
+func (c *skc) cbCall(e ast.Expr, xres int) (string, bool) {
+	call, ok := e.(*ast.CallExpr)
+	if !ok || c.fn == "" || !c.isBuiltin(call.Fun, c.fn) || call.Ellipsis != token.NoPos {
+		return "", false
+	}
+	if len(call.Args) == 1 && c.isEntries(call.Args[0]) {
+		if xres >= 0 {
+			c.fail("result of the map callback used")
+		}
+		c.noWrite()
+		return "SCallMap", true
+	}
+	var es []string
+	for _, a := range call.Args {
+		es = append(es, c.exp(a))
+	}
+	return fmt.Sprintf("SCall [%s] %s", strings.Join(es, "; "), optVar(xres)), true
 }
 
 func (c *skc) noWrite() {
@@ -230,7 +273,9 @@ func (c *skc) stmt(st ast.Stmt) string {
 	}
 	if c.inRange > 0 {
 		// the proofs know one shape of a loop over the map: a body of appends and plain assignments
-		if _, ok := st.(*ast.AssignStmt); !ok {
+		switch st.(type) {
+		case *ast.AssignStmt, *ast.ExprStmt, *ast.IfStmt, *ast.BranchStmt:
+		default:
 			c.fail("statement %T inside a range over the map not understood", st)
 			return ""
 		}
@@ -246,6 +291,9 @@ func (c *skc) stmt(st ast.Stmt) string {
 		}
 		if c.lockCall(call) {
 			return ""
+		}
+		if s, ok := c.cbCall(call, -1); ok {
+			return s
 		}
 		if c.isBuiltin(call.Fun, "delete") && len(call.Args) == 2 && c.isEntries(call.Args[0]) {
 			c.noWrite()
@@ -409,7 +457,37 @@ func (c *skc) stmt(st ast.Stmt) string {
 				parts = append(parts, s)
 			}
 		}
-		cond := c.exp(n.Cond)
+		// if fn(..) / if !fn(..): the call first, into a fresh local
+		cexp, neg := n.Cond, false
+		for {
+			if p, ok := cexp.(*ast.ParenExpr); ok {
+				cexp = p.X
+			} else if u, ok := cexp.(*ast.UnaryExpr); ok && u.Op == token.NOT {
+				cexp, neg = u.X, !neg
+			} else {
+				break
+			}
+		}
+		cond := ""
+		if _, isCall := cexp.(*ast.CallExpr); isCall {
+			tmp := c.declare(" cbres")
+			s, ok := c.cbCall(cexp, tmp)
+			if !ok {
+				c.fail("condition with a call other than the callback not understood")
+				return ""
+			}
+			parts = append(parts, s)
+			cond = fmt.Sprintf("EVar %d", tmp)
+			if neg {
+				cond = "ENot (" + cond + ")"
+			}
+		} else {
+			if c.inRange > 0 {
+				c.fail("if inside a range over the map (other than on the callback's answer) not understood")
+				return ""
+			}
+			cond = c.exp(n.Cond)
+		}
 		th := c.block(n.Body)
 		el := "SSkip"
 		switch e := n.Else.(type) {
@@ -442,7 +520,9 @@ func (c *skc) stmt(st ast.Stmt) string {
 				vx = c.target(n.Value, true)
 			}
 			c.inRange++
+			c.loops++
 			b := c.block(n.Body)
+			c.loops--
 			c.inRange--
 			return fmt.Sprintf("SRangeMap %s %s (%s)", optVar(kx), optVar(vx), b)
 		}
@@ -466,7 +546,15 @@ func (c *skc) stmt(st ast.Stmt) string {
 		if x < 0 {
 			x = c.declare("_unused")
 		}
-		return fmt.Sprintf("SForArgs %d (%s)", x, c.block(n.Body))
+		c.loops++
+		fb := c.block(n.Body)
+		c.loops--
+		return fmt.Sprintf("SForArgs %d (%s)", x, fb)
+	case *ast.BranchStmt:
+		if n.Tok == token.BREAK && n.Label == nil && c.loops > 0 {
+			return "SBreak"
+		}
+		c.fail("branch statement %s not understood", n.Tok)
 	case *ast.ReturnStmt:
 		if len(n.Results) == 1 {
 			if id, ok := n.Results[0].(*ast.Ident); ok {
@@ -486,7 +574,7 @@ func (c *skc) stmt(st ast.Stmt) string {
 	return ""
 }
 
-func genSafeKVCode(repo string) (string, error) {
+func genSafeKVCode(repo string, which int) (string, error) {
 	p, err := Load(repo, "mapz")
 	if err != nil {
 		return "", err
@@ -529,9 +617,9 @@ func genSafeKVCode(repo string) (string, error) {
 		return "", fmt.Errorf("SafeKV struct with one map and one sync.RWMutex not found")
 	}
 	var sb strings.Builder
-	sb.WriteString("(* what every non-callback mapz.SafeKV method does, statement by statement, in the language of Lib/MapLang.v\n   (see gen/safekv_code.go) *)\n")
+	sb.WriteString("(* what one mapz.SafeKV method does, statement by statement, in the language of Lib/MapLang.v (see gen/safekv_code.go) *)\n")
 	sb.WriteString("From V Require Import Lib.MapLang.\n")
-	for _, m := range skcMethods {
+	for _, m := range skcMethods[which : which+1] {
 		fd := p.Func("SafeKV." + m.name)
 		if fd == nil || fd.Body == nil {
 			return "", fmt.Errorf("method SafeKV.%s not found", m.name)
@@ -554,6 +642,11 @@ func genSafeKVCode(repo string) (string, error) {
 					return "", fmt.Errorf("SafeKV.%s: variadic parameter not understood", m.name)
 				}
 				c.vararg = fl.Names[0].Name
+			case *ast.FuncType:
+				if !m.cb || c.fn != "" || len(fl.Names) != 1 {
+					return "", fmt.Errorf("SafeKV.%s: function parameter not understood", m.name)
+				}
+				c.fn = fl.Names[0].Name
 			default:
 				return "", fmt.Errorf("SafeKV.%s: parameter of type %T not understood", m.name, fl.Type)
 			}
@@ -573,7 +666,28 @@ func genSafeKVCode(repo string) (string, error) {
 		if nres != m.nres {
 			return "", fmt.Errorf("SafeKV.%s: number of results differs from the one the model is stated for", m.name)
 		}
-		body := c.block(fd.Body)
+		fbody := fd.Body
+		if m.name == "All" {
+			// an iterator: `return func(yield func(K, V) bool) { ... }`; the effect is that of the closure when it is ranged over
+			var fl *ast.FuncLit
+			if len(fbody.List) == 1 {
+				if rs, ok := fbody.List[0].(*ast.ReturnStmt); ok && len(rs.Results) == 1 {
+					fl, _ = rs.Results[0].(*ast.FuncLit)
+				}
+			}
+			if fl == nil || len(fl.Type.Params.List) != 1 || len(fl.Type.Params.List[0].Names) != 1 || fl.Type.Results != nil {
+				return "", fmt.Errorf("SafeKV.All: not a single returned closure of one parameter")
+			}
+			if _, ok := fl.Type.Params.List[0].Type.(*ast.FuncType); !ok {
+				return "", fmt.Errorf("SafeKV.All: the closure's parameter is not a function")
+			}
+			c.fn = fl.Type.Params.List[0].Names[0].Name
+			fbody = fl.Body
+		}
+		if m.cb && c.fn == "" {
+			return "", fmt.Errorf("SafeKV.%s: no function parameter", m.name)
+		}
+		body := c.block(fbody)
 		if c.err != nil {
 			return "", fmt.Errorf("SafeKV.%s: %v", m.name, c.err)
 		}
